@@ -410,6 +410,20 @@ theorem build_window_crystal {V T} (uts : List T) (eps : List Int) (flags : List
     (by omega) (fun c _ => ⟨by rw [genCrystal_window uts flags reps (draw c) unit tile a b hab hb], by simp⟩)]
   simp [Function.comp_def]
 
+/-- KNOWN FINDING (findings/C10.json, key `window-array-keeps-parent-exit-planes`): `build(first_slice, last_slice)` and
+`PotentialArray.__getitem__` with a slice range hand the exit planes of the FULL stack to the windowed array (`Built.exitPlanes = eps`,
+see `buildEager_rows`), so they may lie outside the window: a multislice run over `potential_array[0:3]` of a longer potential records
+nothing.  (The slices *generated* for a window do carry the right flags: `*_window_eq_sublist`.)  Witness: 4 slices, exit plane 3,
+window [0, 2). -/
+theorem window_keeps_parent_exit_planes_counterexample :
+    ¬ (∀ (eps : List Int) (a b : Nat) (r : Built (Nat × Nat) Nat),
+        buildEager [1, 1, 1, 1] eps [0] (fun c => genAtoms [1, 1, 1, 1] [false, false, false, true] (fun i => (c, i)) a (some (b : Int))) a (some (b : Int)) = .ok r →
+        ∀ p ∈ r.exitPlanes, p < ((b : Int) - (a : Int))) := by
+  intro h
+  have := h [3] 0 2 ⟨[[some (0, 0), some (0, 1)]], [1, 1], [3]⟩ (by decide) 3 (by simp)
+  revert this
+  decide
+
 /-! ### exit-plane flags and crystal thicknesses -/
 
 /-- `_exit_plane_after` has one flag per slice -/
